@@ -768,7 +768,7 @@ func (u *Unit) wfBase(st *State, b Value) *Term {
 	bd := Select(u.fld(st, b.Elem, "bd"), b.Term)
 	return And(
 		Ge(b.Term, IntLit(0)), Lt(b.Term, u.obrk(st, b.Elem)),
-		Ge(ch, IntLit(0)),
+		Ge(ch, IntLit(0)), u.intRangeOf(ch, types.Typ[types.Int]), // the field is a Go int
 		u.validSlice(st, d),
 		Eq(bd, BVLit64(int64(u.widthOf(b.Elem)), 8)),
 	)
